@@ -377,7 +377,7 @@ void World::purity_extras()
     {
         check_purity_begin();
         bool ex = false;
-        Outcome o = call(FaultSpec{}, [&] { ex = eng::database_exists(dir); });
+        Outcome o = call(FaultSpec{}, [&] { ex = eng::database_exists(api_dir()); });
         check_purity_end("database_exists");
         if (!o.threw && !ex)
             report("C16", "C16|database_exists|" + fam() + "|false-while-open", "database_exists() is false for the library that is open");
@@ -544,14 +544,23 @@ void World::after_step(const StepEffect& e)
                            (it->second.snap.empty() ? "" : it->second.snap[0].second));
         }
     }
+    // the call failed and the public observation is exactly what it was: the world is still in the model
+    const bool failed_atomically = faulted && e.out.threw && have_prev && prev.hash() == cur.hash();
     prev = cur;
     have_prev = true;
     uint64_t h = cur.hash();
     state_hashes.insert(h);
     log.u64(h);
     // (also when this very step made a live track unobservable: the raw bytes then tell what was stored)
-    if (check(CK_AUDIT) && !faulted)
+    // (after a FAILED call too - fault fired, call threw, world still in the model: the stored database must be a
+    //  well-formed library whatever the failure left in the pager; the auditor's own connection plays back a hot journal
+    //  exactly as Engine would)
+    if (check(CK_AUDIT) && (!faulted || (failed_atomically && !stop)))
+    {
+        if (faulted)
+            probes.hit("audit_after_failed_call");
         audit();
+    }
 }
 
 // ------------------------------------------------------------------ name lookups
